@@ -1,0 +1,102 @@
+// Copyright 2020-2025 Buf Technologies, Inc.
+//
+// Licensed under the Apache License, Version 2.0 (the "License");
+// you may not use this file except in compliance with the License.
+// You may obtain a copy of the License at
+//
+//      http://www.apache.org/licenses/LICENSE-2.0
+//
+// Unless required by applicable law or agreed to in writing, software
+// distributed under the License is distributed on an "AS IS" BASIS,
+// WITHOUT WARRANTIES OR CONDITIONS OF ANY KIND, either express or implied.
+// See the License for the specific language governing permissions and
+// limitations under the License.
+
+//go:build verif
+
+package bufcheck
+
+// Contracts for the gocv verifier (see /verif/DESIGN.md). Comment-only.
+//
+//@ trusted pure interface descriptor.FileLocation
+//@ trusted pure interface descriptor.FileDescriptor
+//@ trusted pure interface protoreflect.FileDescriptor
+//@ trusted pure interface protoversion.PackageVersion
+//@ trusted pure interface RuleOrCategory
+//@ trusted pure interface Rule
+//
+// C06: suppression. checkCommentLineForCheckIgnore: the line must start with "<prefix> <ruleID>".
+//@ pure func checkCommentLineForCheckIgnore(commentLine, commentIgnorePrefix, ruleID) (r)
+//@   property C06
+//@   ensures r == hasPrefix(commentLine, commentIgnorePrefix + " " + ruleID)
+//
+// ignoreFileLocation: imports are never reported with exclude-imports; a location under an ignore path,
+// or under an ignore_only path OF THIS RULE, is suppressed; and the answer "not suppressed" is only given
+// after every applicable source (paths, this rule's ignore_only, package stability, comment ignores) was consulted.
+//@ func ignoreFileLocation(config, ruleID, fileLocation) (r, err)
+//@   property C06
+//@   modifies heap, ghost.commentsConsulted, ghost.versionConsulted
+//@   requires !ghost.commentsConsulted && !ghost.versionConsulted
+//@   requires validRel(fileLocation.FileDescriptor().ProtoreflectFileDescriptor().Path()) && (forall k string :: k in config.IgnoreRootPaths ==> validRel(k)) && (forall id string, k string :: id in config.IgnoreRuleIDToRootPaths && k in config.IgnoreRuleIDToRootPaths[id] ==> validRel(k))
+//@   ensures imports-never-reported: old(config.ExcludeImports) && fileLocation.FileDescriptor().IsImport() ==> r && err == nil
+//@   ensures ignore-paths: (exists k string :: k in old(config.IgnoreRootPaths) && ancOrSelf(k, fileLocation.FileDescriptor().ProtoreflectFileDescriptor().Path())) ==> r && err == nil
+//@   ensures ignore-only-this-rule: ruleID in old(config.IgnoreRuleIDToRootPaths) && (exists k string :: k in old(config.IgnoreRuleIDToRootPaths)[ruleID] && ancOrSelf(k, fileLocation.FileDescriptor().ProtoreflectFileDescriptor().Path())) ==> r && err == nil
+//@   ensures negative-needs-version-check: err == nil && !r && old(config.IgnoreUnstablePackages) ==> ghost.versionConsulted
+//@   ensures negative-needs-comment-check: err == nil && !r && old(config.AllowCommentIgnores) && old(config.CommentIgnorePrefix) != "" && len(fileLocation.SourcePath()) > 0 ==> ghost.commentsConsulted
+//@   ensures only-documented-reasons: r && !old(config.IgnoreUnstablePackages) && !(old(config.AllowCommentIgnores) && old(config.CommentIgnorePrefix) != "") ==> ((old(config.ExcludeImports) && fileLocation.FileDescriptor().IsImport()) || (exists k string :: k in old(config.IgnoreRootPaths) && ancOrSelf(k, fileLocation.FileDescriptor().ProtoreflectFileDescriptor().Path())) || (ruleID in old(config.IgnoreRuleIDToRootPaths) && (exists k string :: k in old(config.IgnoreRuleIDToRootPaths)[ruleID] && ancOrSelf(k, fileLocation.FileDescriptor().ProtoreflectFileDescriptor().Path()))))
+//
+// Rule / category expansion: the result is exactly the union of the expansions; an unknown ID is an error.
+//@ func transformRuleOrCategoryIDsToRuleIDs(ruleOrCategoryIDs, ruleIDToCategoryIDs, categoryIDToRuleIDs) (r, err)
+//@   property C06
+//@   reveal inSlice
+//@   ensures unknown-rejected: len(ruleOrCategoryIDs) > 0 ==> ((err != nil) <==> (exists j int :: 0 <= j && j < len(ruleOrCategoryIDs) && ruleOrCategoryIDs[j] != "" && !(ruleOrCategoryIDs[j] in ruleIDToCategoryIDs) && !(ruleOrCategoryIDs[j] in categoryIDToRuleIDs)))
+//@   ensures union-sound: err == nil ==> (forall x string :: inSlice(r, x) ==> (exists j int :: 0 <= j && j < len(ruleOrCategoryIDs) && ruleOrCategoryIDs[j] != "" && ((ruleOrCategoryIDs[j] in ruleIDToCategoryIDs && x == ruleOrCategoryIDs[j]) || (!(ruleOrCategoryIDs[j] in ruleIDToCategoryIDs) && ruleOrCategoryIDs[j] in categoryIDToRuleIDs && inSlice(categoryIDToRuleIDs[ruleOrCategoryIDs[j]], x)))))
+//@   ensures union-complete: err == nil ==> (forall j int, x string :: 0 <= j && j < len(ruleOrCategoryIDs) && ruleOrCategoryIDs[j] != "" && ((ruleOrCategoryIDs[j] in ruleIDToCategoryIDs && x == ruleOrCategoryIDs[j]) || (!(ruleOrCategoryIDs[j] in ruleIDToCategoryIDs) && ruleOrCategoryIDs[j] in categoryIDToRuleIDs && inSlice(categoryIDToRuleIDs[ruleOrCategoryIDs[j]], x))) ==> inSlice(r, x))
+//@   loop 0 invariant ruleIDMap != nil
+//@   loop 0 invariant forall j int :: 0 <= j && j < $i0 ==> ruleOrCategoryIDs[j] == "" || ruleOrCategoryIDs[j] in ruleIDToCategoryIDs || ruleOrCategoryIDs[j] in categoryIDToRuleIDs
+//@   loop 0 invariant forall x string :: x in ruleIDMap ==> (exists j int :: 0 <= j && j < $i0 && ruleOrCategoryIDs[j] != "" && ((ruleOrCategoryIDs[j] in ruleIDToCategoryIDs && x == ruleOrCategoryIDs[j]) || (!(ruleOrCategoryIDs[j] in ruleIDToCategoryIDs) && ruleOrCategoryIDs[j] in categoryIDToRuleIDs && inSlice(categoryIDToRuleIDs[ruleOrCategoryIDs[j]], x))))
+//@   loop 0 invariant forall j int, x string :: 0 <= j && j < $i0 && ruleOrCategoryIDs[j] != "" && ((ruleOrCategoryIDs[j] in ruleIDToCategoryIDs && x == ruleOrCategoryIDs[j]) || (!(ruleOrCategoryIDs[j] in ruleIDToCategoryIDs) && ruleOrCategoryIDs[j] in categoryIDToRuleIDs && inSlice(categoryIDToRuleIDs[ruleOrCategoryIDs[j]], x))) ==> x in ruleIDMap
+//@   loop 1 invariant ruleIDMap != nil && ruleIDs == categoryIDToRuleIDs[ruleOrCategoryID] && ruleOrCategoryID == ruleOrCategoryIDs[$i0] && ruleOrCategoryID != "" && !(ruleOrCategoryID in ruleIDToCategoryIDs) && ruleOrCategoryID in categoryIDToRuleIDs && $i0 < len(ruleOrCategoryIDs)
+//@   loop 1 invariant forall j int :: 0 <= j && j < $i0 ==> ruleOrCategoryIDs[j] == "" || ruleOrCategoryIDs[j] in ruleIDToCategoryIDs || ruleOrCategoryIDs[j] in categoryIDToRuleIDs
+//@   loop 1 invariant forall x string :: x in ruleIDMap ==> (exists j int :: 0 <= j && j <= $i0 && ruleOrCategoryIDs[j] != "" && ((ruleOrCategoryIDs[j] in ruleIDToCategoryIDs && x == ruleOrCategoryIDs[j]) || (!(ruleOrCategoryIDs[j] in ruleIDToCategoryIDs) && ruleOrCategoryIDs[j] in categoryIDToRuleIDs && inSlice(categoryIDToRuleIDs[ruleOrCategoryIDs[j]], x))))
+//@   loop 1 invariant forall j int, x string :: 0 <= j && j < $i0 && ruleOrCategoryIDs[j] != "" && ((ruleOrCategoryIDs[j] in ruleIDToCategoryIDs && x == ruleOrCategoryIDs[j]) || (!(ruleOrCategoryIDs[j] in ruleIDToCategoryIDs) && ruleOrCategoryIDs[j] in categoryIDToRuleIDs && inSlice(categoryIDToRuleIDs[ruleOrCategoryIDs[j]], x))) ==> x in ruleIDMap
+//@   loop 1 invariant forall q int :: 0 <= q && q < $i1 ==> ruleIDs[q] in ruleIDMap
+//@   canary ensures err != nil
+//
+//@ func getIDToRuleOrCategory(ruleOrCategories) (m, err)
+//@   property C06
+//@   ensures keyed-by-id: err == nil ==> m != nil && (forall k string :: k in m ==> m[k].ID() == k)
+//@   ensures all-present: err == nil ==> (forall j int :: 0 <= j && j < len(ruleOrCategories) ==> ruleOrCategories[j].ID() in m)
+//@   loop 0 invariant m != nil && (forall k string :: k in m ==> m[k].ID() == k) && (forall j int :: 0 <= j && j < $i ==> ruleOrCategories[j].ID() in m)
+//
+// Deprecated IDs behave as their replacements: a deprecated ID is replaced by exactly its replacement IDs.
+//@ func transformRuleIDsToUndeprecated(ruleIDs, deprecatedRuleIDToReplacementIDs) (r)
+//@   property C06
+//@   reveal inSlice
+//@   ensures sound: forall x string :: inSlice(r, x) ==> (exists j int :: 0 <= j && j < len(ruleIDs) && ((!(ruleIDs[j] in deprecatedRuleIDToReplacementIDs) && x == ruleIDs[j]) || (ruleIDs[j] in deprecatedRuleIDToReplacementIDs && inSlice(deprecatedRuleIDToReplacementIDs[ruleIDs[j]], x))))
+//@   ensures complete: forall j int, x string :: 0 <= j && j < len(ruleIDs) && ((!(ruleIDs[j] in deprecatedRuleIDToReplacementIDs) && x == ruleIDs[j]) || (ruleIDs[j] in deprecatedRuleIDToReplacementIDs && inSlice(deprecatedRuleIDToReplacementIDs[ruleIDs[j]], x))) ==> inSlice(r, x)
+//@   loop 0 invariant undeprecatedRuleIDMap != nil
+//@   loop 0 invariant forall x string :: x in undeprecatedRuleIDMap ==> (exists j int :: 0 <= j && j < $i0 && ((!(ruleIDs[j] in deprecatedRuleIDToReplacementIDs) && x == ruleIDs[j]) || (ruleIDs[j] in deprecatedRuleIDToReplacementIDs && inSlice(deprecatedRuleIDToReplacementIDs[ruleIDs[j]], x))))
+//@   loop 0 invariant forall j int, x string :: 0 <= j && j < $i0 && ((!(ruleIDs[j] in deprecatedRuleIDToReplacementIDs) && x == ruleIDs[j]) || (ruleIDs[j] in deprecatedRuleIDToReplacementIDs && inSlice(deprecatedRuleIDToReplacementIDs[ruleIDs[j]], x))) ==> x in undeprecatedRuleIDMap
+//@   loop 1 invariant undeprecatedRuleIDMap != nil && $i0 < len(ruleIDs) && ruleID == ruleIDs[$i0] && ruleID in deprecatedRuleIDToReplacementIDs && replacementIDs == deprecatedRuleIDToReplacementIDs[ruleID]
+//@   loop 1 invariant forall x string :: x in undeprecatedRuleIDMap ==> (exists j int :: 0 <= j && j <= $i0 && ((!(ruleIDs[j] in deprecatedRuleIDToReplacementIDs) && x == ruleIDs[j]) || (ruleIDs[j] in deprecatedRuleIDToReplacementIDs && inSlice(deprecatedRuleIDToReplacementIDs[ruleIDs[j]], x))))
+//@   loop 1 invariant forall j int, x string :: 0 <= j && j < $i0 && ((!(ruleIDs[j] in deprecatedRuleIDToReplacementIDs) && x == ruleIDs[j]) || (ruleIDs[j] in deprecatedRuleIDToReplacementIDs && inSlice(deprecatedRuleIDToReplacementIDs[ruleIDs[j]], x))) ==> x in undeprecatedRuleIDMap
+//@   loop 1 invariant forall q int :: 0 <= q && q < $i1 ==> replacementIDs[q] in undeprecatedRuleIDMap
+//
+// (not yet discharged; assumed) ignore_only keys are undeprecated the same way
+//@ trusted func transformRuleIDToIgnoreRootPathsToUndeprecated(ruleIDToIgnoreRootPaths, deprecatedRuleIDToReplacementIDs) (r)
+//@   ensures forall id string :: id in r ==> ((id in ruleIDToIgnoreRootPaths && !(id in deprecatedRuleIDToReplacementIDs)) || (exists d string :: d in ruleIDToIgnoreRootPaths && d in deprecatedRuleIDToReplacementIDs && inSlice(deprecatedRuleIDToReplacementIDs[d], id)))
+//@ trusted func GetDeprecatedIDToReplacementIDs(rulesOrCategories) (r, err)
+//@   ensures err == nil ==> (forall d string, x string :: d in r && inSlice(r[d], x) ==> !(x in r))
+//
+// The selection law, at the point where the result set is complete:
+// rules(config) = undeprecate(expand(use)) \ undeprecate(expand(except)); and after undeprecation no
+// ignore_only key is a deprecated rule ID any more.
+//@ func newRulesConfig(useRuleIDsAndCategoryIDs, exceptRuleIDsAndCategoryIDs, ignoreRootPaths, ignoreRuleIDOrCategoryIDToRootPaths, allRules, allCategories, ruleType, relatedCheckConfigs) (r, err)
+//@   property C06
+//@   modifies heap
+//@   reveal inSlice
+//@   loop 5 invariant resultRuleIDToRule != nil && (forall x string :: (x in resultRuleIDToRule) <==> (exists j int :: 0 <= j && j < $i && useRuleIDs[j] == x))
+//@   loop 6 invariant resultRuleIDToRule != nil && (forall x string :: (x in resultRuleIDToRule) <==> (inSlice(useRuleIDs, x) && !(exists j int :: 0 <= j && j < $i && exceptRuleIDs[j] == x)))
+//@   assert before "resultRules := slicesext.MapValuesToSlice(resultRuleIDToRule)" use-minus-except: forall x string :: (x in resultRuleIDToRule) <==> (inSlice(useRuleIDs, x) && !inSlice(exceptRuleIDs, x))
+//@   assert before "resultRuleIDToRule := make(map[string]Rule)" ignore-only-undeprecated: forall id string :: id in ignoreRuleIDToRootPathMap ==> !(id in deprecatedRuleIDToReplacementRuleIDs)
